@@ -1183,6 +1183,11 @@ func (m *Machine) doRecover(caller *frame) Value {
 		pf.panicVal = nil
 		if tp, ok := p.(targetPanic); ok {
 			if iv, isI := tp.v.(Iface); isI {
+				if iv.T == nil {
+					// panic(nil) surfaces as *runtime.PanicNilError since Go 1.21; this also covers variables the
+					// runtime fills in by linkname (math/bits.overflowError), which are nil for the executor
+					return Iface{T: types.Typ[types.String], V: Str{S: "panic called with nil argument (or a runtime-provided error value)"}}
+				}
 				return iv
 			}
 			return Iface{T: types.Typ[types.String], V: tp.v}
